@@ -523,6 +523,64 @@ def build(tier, seed):
         add(f'DATEDIF[Y, start in {ycon}]', sp_datedif_my('Y', ycon, yspan, {'YEARLY': yspan // 365 + 1}),
             f'start: every whole serial of the year {ycon} (from 61); end: start-40 .. start+{yspan} days: complete years between the dates, #NUM! when start > end', cost=20, timeout=600)
 
+    def sp_yearfrac_30360(ycon, span):
+        """YEARFRAC bases 0 and 4 (30/360): the yearfrac package's pure-Python day count is interpreted from its installed source like the
+        repo's own code; compared where the US and the European convention coincide (both days of month <= 27)."""
+        lo = max(61, datetime.date(ycon, 1, 1).toordinal() - REF0)
+        hi = datetime.date(ycon, 12, 31).toordinal() - REF0
+
+        def spec():
+            f = unwrap(XD.YEARFRAC)
+            basis = z3.Int('basis')
+            sy, sm, sd, ey, em, ed = [z3.Int(x) for x in ('sy', 'sm', 'sd', 'ey', 'em', 'ed')]
+            cons = [a_ >= lo, a_ <= hi, b_ >= a_ - span, b_ >= 61, b_ <= a_ + span, b_ <= NMAX, sy == ycon, z3.Or(basis == 0, basis == 4),
+                    DM.civil_axioms(REF0 + a_, sy, sm, sd), DM.civil_axioms(REF0 + b_, ey, em, ed), ey >= ycon - span // 365 - 1, ey <= ycon + span // 365 + 1]
+            fwd = (ey - sy) * 360 + (em - sm) * 30 + (ed - sd)
+            days = z3.If(a_ <= b_, fwd, -fwd)
+            region = z3.And(sd <= 27, ed <= 27)
+
+            def encode():
+                leaves, it = K.explore(f, dts() + [basis], cons, DM.DATE_MODELS, inline_prefix=('xlcalculator', 'yearfrac'))
+                return leaves, it, {'a': a_, 'b': b_, 'basis': basis, 'sy': sy, 'sm': sm, 'sd': sd, 'ey': ey, 'em': em, 'ed': ed}
+
+            def bad(l):
+                if l.kind != 'return':
+                    return region
+                return z3.And(region, K.to_real(l.value) != z3.ToReal(days) / 360)
+
+            def py_ref(a):
+                s0, e0 = sorted((datetime.date.fromordinal(REF0 + a['a']), datetime.date.fromordinal(REF0 + a['b'])))
+                return ((e0.year - s0.year) * 360 + (e0.month - s0.month) * 30 + (e0.day - s0.day)) / 360
+
+            def replay(a):
+                got = native_call(XD.YEARFRAC, a['a'], a['b'], a['basis'])
+                s0, e0 = datetime.date.fromordinal(REF0 + a['a']), datetime.date.fromordinal(REF0 + a['b'])
+                if s0.day > 27 or e0.day > 27:
+                    return True, 'outside the compared region'
+                ok = got[0] == 'num' and abs(got[1] - py_ref(a)) < 1e-9
+                return ok, f'YEARFRAC({s0}, {e0}, {a["basis"]}) = {got}, 30/360 count {py_ref(a)}'
+
+            def nat(a):
+                r = native_call(XD.YEARFRAC, a['a'], a['b'], a['basis'])
+                return ('num', round(r[1], 9)) if r[0] == 'num' else r
+
+            def nrm(l, m):
+                r = norm(l, m)
+                return ('num', round(r[1], 9)) if r[0] == 'num' and isinstance(r[1], float) else r
+
+            def smp(x, dd, bs):
+                s0, e0 = datetime.date.fromordinal(REF0 + x), datetime.date.fromordinal(REF0 + x + dd)
+                return {'a': x, 'b': x + dd, 'basis': bs, 'sy': s0.year, 'sm': s0.month, 'sd': s0.day, 'ey': e0.year, 'em': e0.month, 'ed': e0.day}
+            samples = [smp(x, dd, bs) for x, dd, bs in ((lo + 14, 31, 0), (lo + 100, 0, 4), (hi - 20, 45, 0), (lo + 200, -35, 4), (lo + 40, min(span, 366), 0)) if lo <= x <= hi and x + dd >= 61]
+            return dict(encode=encode, bad=bad, replay=replay, norm=nrm, native=nat, samples=samples,
+                        show=lambda a: f'YEARFRAC({datetime.date.fromordinal(REF0 + a["a"])}, {datetime.date.fromordinal(REF0 + a["b"])}, {a["basis"]})')
+        return spec
+    fspan = 1500 if tier == 'thorough' else 500
+    for ycon in (1999, 2000, 2023, 2024, 2100):
+        add(f'YEARFRAC[basis 0 and 4, start in {ycon}]', sp_yearfrac_30360(ycon, fspan),
+            f'one date: every whole serial of the year {ycon}; the other: within {fspan} days before or after it; basis 0 and 4: (360 dy + 30 dm + dd) / 360 with the dates swapped when start > end, '
+            'compared where neither day of month exceeds 27 (there the US and the European 30/360 conventions coincide); the yearfrac package\'s source is interpreted, not modelled', cost=20, timeout=600)
+
     def sp_yearfrac():
         f = unwrap(XD.YEARFRAC)
         basis = z3.Int('basis')
